@@ -133,6 +133,35 @@ func runC08(e *Env) {
 					}
 				}
 			})
+			// or membership in a package-level table of codes: slices.Contains(table[:], code)
+			for _, c := range core.Calls(f, func(n string, _ ssa.CallInstruction) bool { return strings.HasSuffix(n, "slices.Contains") }) {
+				var g *ssa.Global
+				v := core.Arg(c, 0)
+				for i := 0; i < 4 && v != nil; i++ {
+					switch x := v.(type) {
+					case *ssa.Slice:
+						v = x.X
+					case *ssa.UnOp:
+						v = x.X
+					case *ssa.Global:
+						g, v = x, nil
+					default:
+						v = nil
+					}
+				}
+				if g == nil {
+					continue
+				}
+				if pk := e.P.Pkg("net/observation"); pk != nil {
+					if lit, _ := core.VarLiteral(pk, g.Name()); lit != nil {
+						if vals, ok := core.EvalIntSlice(pk, lit); ok && len(vals) == 2 {
+							for _, k := range vals {
+								saw[k] = true
+							}
+						}
+					}
+				}
+			}
 			e.R.Check(saw[69] && saw[67], "C08.R4", "net/observation.Handler.NewObservation:success-codes", e.fpos(f), "registration succeeds only for 2.05 Content (69) or 2.03 Valid (67)", "the first response's code is not restricted to 2.05/2.03")
 		}
 	}
